@@ -184,6 +184,22 @@ def run_C18(tier, seed):
     return res
 
 
+STRICT_P = {"Strict": "TRUE", "CheckArith": "TRUE", "CrossFresh": "FALSE"}
+STRICT_V = {"Strict": "TRUE", "CheckArith": "TRUE", "CheckLayout": "TRUE"}
+
+
+def run_C19(tier, seed):
+    q = Q(tier)
+    res = [stages.vectors_stage("C19", seed), stages.nonce_stage("C19"), stages.generators_stage("C19", tier, seed, threads=0)]
+    # strict mode: labels, lengths, order of every transcript operation, rekey label, weight label, table layout, and
+    # the seed-derived nonces at (label, j, k) - a consistent prover+verifier change is a deviation from the specification
+    sc, _ = stages.pick_scenarios("complete", tier, seed, lambda s: honest(s) and nm_of(s) <= (8 if q else 32), 14 if q else 150, prop="C19")
+    sc2, _ = stages.pick_scenarios("recover", tier, seed, lambda s: honest(s) and nm_of(s) <= 16, 8 if q else 80, prop="C19")
+    res.append(stages.trace_stage("C19", "strict-prove", sc + sc2, seed, module="TraceProve", consts=STRICT_P, calls="prove"))
+    res.append(stages.trace_stage("C19", "strict-verify", sc + sc2, seed, module="TraceVerify", consts=STRICT_V, calls="verify"))
+    return res
+
+
 def run_C20(tier, seed):
     mem = lambda plain: f"CONSTANTS Plain = {'TRUE' if plain else 'FALSE'}\nSPECIFICATION Spec\nINVARIANT NoLeak\nCHECK_DEADLOCK FALSE\n"
     res = [stages.simple_mc_stage("C20", "MC_Memory", mem(False), [("unwiped_temporary_copy", mem(True), "NoLeak")])]
@@ -234,6 +250,7 @@ CHECKS = {
     "C16": {"run": run_C16, "level": "model_checking"},
     "C17": {"run": run_C17, "level": "model_checking"},
     "C18": {"run": run_C18, "level": "model_checking"},
+    "C19": {"run": run_C19, "level": "model_checking"},
     "C20": {"run": run_C20, "level": "model_checking"},
     "C14": {"run": run_C14, "level": "model_checking"},
     "C06": {"run": run_C06, "level": "model_checking"},
@@ -253,6 +270,9 @@ def replay(rep):
         return stages.replay_case(rep)
     if rep["kind"] == "gens":
         return stages.replay_gens(rep)
+    if rep["kind"] == "vectors":
+        st = stages.vectors_stage("replay", rep["seed"])
+        return [v["message"] for v in st.violations]
     if rep["kind"] == "mem":
         return stages.replay_mem(rep)
     if rep["kind"] == "threads":
